@@ -137,6 +137,15 @@ def meta_fault_worlds(tier, seed):
             out.append(v)
     return out
 
+def drop_rewritten_under_faults(cases):
+    """C04 under injected failures: "not rewritten" cannot be promised for an image the run could not open (see DESIGN §13);
+    a verified piece must still verify (`c04-lost`)"""
+    for c in cases:
+        r = c.result
+        if r is not None and (r.world.faults or getattr(r.world, "partial", None) is not None):
+            c.fails = [f for f in c.fails if f != "c04-rewritten" and f != "c04-not-idle"]
+    return cases
+
 def check_meta_faults(cases):
     """C13 on the unlogged metadata queries: a query that fails for ONE directory-walk entry may cost at most that entry.
     The run with the fault must recover at least what a fault-free run recovers on the same tree WITHOUT that file (an
@@ -193,6 +202,8 @@ def crash_worlds(tier, seed):
         w = W.gen_world_two_devices(rng) if i % 4 == 3 else (W.gen_small_world(rng) if i % 2 else W.gen_fault_world(rng))
         if i % 8 == 6:
             w = W.gen_world_big_files(rng)
+        if i % 8 == 2:
+            w = W.gen_world_linked_cross_seed(rng)
         w.threads = 1
         base = W.execute(w)
         _, m = count_ops(base)
@@ -246,6 +257,14 @@ def meta_worlds(tier, seed):
         w = W.gen_world_cross_seed(Rng(seed, "c17-cross", i))
         w.group = None
         out.append(w)
+    for i in range(4 if tier == "quick" else 40):
+        # a mount point below a scan directory: scanning the enclosing directory, the mount point, or both is one world
+        import copy
+        w = W.gen_world_mount_below_scan(Rng(seed, "c17-mnt", i))
+        w.group = 100000 + i
+        v1 = copy.copy(w); v1.scan = [(b"outerm", b"inner")]; v1.tag = "mount point scanned directly"; v1.group = w.group
+        v2 = copy.copy(w); v2.scan = [(b"outerm",), (b"outerm", b"inner")]; v2.tag = "enclosing directory also scanned"; v2.group = w.group
+        out += [v1, w, v2]
     for i in range(n):
         rng = Rng(seed, "c17", i)
         w = W.gen_world(rng)
@@ -350,11 +369,12 @@ EXTRA_MODULES = {"C14": ["TB.Props.C14run"], "C03": ["TB.Props.C03frame"], "C17"
                  "C02": ["TB.Props.C02run", "TB.Props.C02chain", "TB.Props.TopLevel"], "C16": ["TB.Props.C16run", "TB.Props.C16total"],
                  "C04": ["TB.Props.C04a", "TB.Props.C04c", "TB.Props.C04h", "TB.Props.C04hist", "TB.Props.C06layout", "TB.Props.TopLevel"],
                  "C15": ["TB.Props.C04a", "TB.Props.C04c", "TB.Props.C02chain"], "C12": ["TB.Props.C06layout"],
-                 "C05": ["TB.Props.C05writes"]}
+                 "C05": ["TB.Props.C05writes"], "C06": ["TB.Props.C06layout"]}
 
 PROPS = {
     "C01": dict(module="TB.Props.C01", theorems=["C01_write_sound", "C01_gate", "C01_writer_cursor", "C01_run"], clauses=["c01-"],
                 worlds=lambda t, s: [W.gen_world_misfiled(Rng(s, "c01-misfiled", i)) for i in range(60 if t == "quick" else 1200)]
+                                    + [W.gen_world_short_last_digest(Rng(s, "c01-cut", i)) for i in range(10 if t == "quick" else 100)]
                                     + worlds_default(t, s, "c01", 400, 8000, tweak_threads)),
     "C02": dict(module="TB.Props.C02", theorems=["C02_search_sound", "C02_search_complete", "C02_piece"], clauses=["c02-"],
                 worlds=lambda t, s: [W.gen_world_many_candidates(Rng(s, "c02-many", k), k) for k in (2, 260)]
@@ -362,12 +382,24 @@ PROPS = {
                                     + [W.gen_world_big_files(Rng(s, "c02-big", i)) for i in range(4 if t == "quick" else 40)]
                                     + [W.gen_world_two_devices(Rng(s, "c02-dev", i)) for i in range(8 if t == "quick" else 80)]
                                     + meta_fault_worlds(t, s)
+                                    + [W.gen_world_scan_root_link(Rng(s, "c02-link", i)) for i in range(20 if t == "quick" else 400)]
+                                    + [W.gen_world_mount_below_scan(Rng(s, "c02-mnt", i)) for i in range(4 if t == "quick" else 40)]
                                     + worlds_default(t, s, "c02", 400, 8000, tweak_threads), post=check_meta_faults),
-    "C03": dict(module="TB.Props.C03", theorems=["C03_confined", "C03_readonly", "C03_plain"], clauses=["c03-"], worlds=lambda t, s: worlds_default(t, s, "c03", 300, 6000, tweak_threads) + fault_worlds(t, s),
+    "C03": dict(module="TB.Props.C03", theorems=["C03_confined", "C03_readonly", "C03_plain"], clauses=["c03-"], worlds=lambda t, s: worlds_default(t, s, "c03", 300, 6000, tweak_threads) + fault_worlds(t, s)
+                                    + [W.gen_world_c16(Rng(s, "c03-args", i), i) for i in range(45 if t == "quick" else 900)],
                 unit_stream=lambda t, s: unit.load_stream("quick", s)[: 3000 if t == "quick" else 8000]),
     "C04": dict(module="TB.Props.C04", theorems=["C04_export_first", "C04_skip", "C04b_untouched"], clauses=["c04-"],
                 worlds=lambda t, s: [W.gen_world_cross_seed(Rng(s, "c04-cross", i)) for i in range(40 if t == "quick" else 800)]
-                                    + worlds_default(t, s, "c04", 300, 6000, tweak_threads)),
+                                    + [W.gen_world_linked_cross_seed(Rng(s, "c04-linked", i)) for i in range(20 if t == "quick" else 400)]
+                                    + fault_worlds(t, s)
+                                    + worlds_default(t, s, "c04", 300, 6000, tweak_threads), post=lambda cases: drop_rewritten_under_faults(cases)),
+    # C06 at run level: the work list evaluated by a run is the layout — every piece of every torrent, once (the counters' total,
+    # and every available piece recovered); content made of one repeated block gives adjacent pieces with equal hashes
+    "C06": dict(module="TB.Props.C06", theorems=["C06_partition_multi", "C06_partition_single", "C06_every_byte_multi", "C06_every_byte_single",
+                                                  "C06_closed_form_multi", "C06_closed_form_single", "C06_zero_piece_length", "C06_loaded"],
+                clauses=["c06-", "c15-sum", "c02-"],
+                worlds=lambda t, s: worlds_default(t, s, "c06", 120, 2400, tweak_threads),
+                unit_stream=lambda t, s: unit.c06_stream(t, s)[0]),
     # C07 at run level: torrents with the same interpreted content and different info bytes (cross-seeds) are DIFFERENT torrents,
     # each exported under the hex form of its own info-hash; the unit-level stream (hash of the exact info bytes) stays
     "C07": dict(module="TB.Props.C07", theorems=["C07_span", "C07_indep", "C07_hex_length", "C07_hex_alphabet", "C07_hex_injective"],
@@ -380,6 +412,7 @@ PROPS = {
                                     + partial_write_worlds(t, s, "c12-partial")),
     "C14": dict(module="TB.Props.C14", theorems=["C14_abort", "C14_pass2_ops", "C14_noflag"], clauses=["c14-", "c16-"],
                 worlds=lambda t, s: [W.gen_world_resize_huge(Rng(s, "c14-huge", i)) for i in range(6 if t == "quick" else 30)]
+                                    + [W.gen_world_many_short_images(Rng(s, "c14-many", i)) for i in range(2 if t == "quick" else 20)]
                                     + [W.gen_world_dup_path_resize(Rng(s, "c14-dup", i)) for i in range(40 if t == "quick" else 400)]
                                     + [W.gen_world_c14(Rng(s, "c14", i)) for i in range(400 if t == "quick" else 8000)]
                                     + resize_fault_worlds(t, s)),
@@ -581,8 +614,10 @@ def gen_fs_sched_world(rng, i):
     return w
 
 def run_exec_cases(worlds):
-    fs_worlds = [w for w in worlds if getattr(w, "sched_fs", None) is not None]
-    worlds = [w for w in worlds if getattr(w, "sched_fs", None) is None]
+    # replayed against the executor model: worlds run under the executor-level scheduler (`sched`); everything else
+    # (file-operation scheduling, or the real OS scheduler) is judged at run level
+    fs_worlds = [w for w in worlds if getattr(w, "sched", None) is None]
+    worlds = [w for w in worlds if getattr(w, "sched", None) is not None]
     return run_exec_only(worlds) + (run_worlds(fs_worlds) if fs_worlds else [])
 
 def run_exec_only(worlds):
@@ -668,5 +703,6 @@ PROPS["C05"] = dict(module="TB.Props.C05", theorems=["C05_once", "C05_deadlock_f
                     # a threaded run must satisfy the guarantees of a single-threaded one: the run-level clauses count here
                     clauses=["c05-", "c16-", "c01-", "c02-", "c04-", "c12-", "c13-", "c15-"],
                     worlds=lambda t, s: [gen_exec_world(Rng(s, "c05", i), i) for i in range(300 if t == "quick" else 6000)]
-                                        + [gen_fs_sched_world(Rng(s, "c05-fs", i), i) for i in range(200 if t == "quick" else 4000)],
+                                        + [gen_fs_sched_world(Rng(s, "c05-fs", i), i) for i in range(200 if t == "quick" else 4000)]
+                                        + [W.gen_world_same_dir_many_files(Rng(s, "c05-dir", i)) for i in range(24 if t == "quick" else 400)],
                     runner=run_exec_cases)
